@@ -13,9 +13,11 @@ let nat_of_int n = let rec go acc k = if k <= 0 then acc else go (S acc) (k - 1)
 let int_of_nat n = let rec go acc = function O -> acc | S m -> go (acc + 1) m in go 0 n
 let split c s = String.split_on_char c s
 let words s = List.filter (fun x -> x <> "") (split ' ' s)
-let n_of s = nat_of_int (int_of_string s)
-
 exception Bad of string
+(* the model's naturals are unary: arguments beyond 10^6 (the overflow family of the check) are judged by the check's own
+   big-integer checker, not by the model *)
+let n_of s = if String.length s > 6 then raise (Bad "bignum") else nat_of_int (int_of_string s)
+
 
 let atom a =
   if String.length a >= 2 && a.[0] = 'a' then nat_of_int (int_of_string (String.sub a 1 (String.length a - 1)))
@@ -90,12 +92,23 @@ type 'a folded = Accepted of 'a * int | Rejected of int * string * string
 
 (* returns the verdict of the fold and ALL component events of the trace (also those after a rejection, so that
    the direct property checker can still be evaluated on the complete real trace) *)
-let fold_trace step s0 toks =
-  let parsed = List.map (fun tok -> (tok, (try Ok (parse_token tok) with Bad w -> Error w | Failure w -> Error w))) toks in
+let fold_trace ?(obs = fun _ _ _ -> false) step s0 toks =
+  (* tid:US:val:k:v = the racing observer Semaphore::value(): not an event of the transition system; the value read is
+     checked against the model state at that point by [obs] *)
+  let observation tok = match split ':' tok with
+    | [tid; "US"; "val"; _; v] -> (try Some (int_of_string tid - 1, int_of_string v) with Failure _ -> None)
+    | _ -> None in
+  let parsed = List.map (fun tok -> (tok, (match observation tok with
+      | Some _ -> Ok None
+      | None -> (try Ok (parse_token tok) with Bad w -> Error w | Failure w -> Error w)))) toks in
   let evs = List.concat_map (fun (_, p) -> match p with Ok (Some e) -> [e] | _ -> []) parsed in
   let rec go s i = function
     | [] -> Accepted (s, i)
     | (tok, Error w) :: _ -> Rejected (i, tok, w)
+    | (tok, Ok None) :: r when observation tok <> None ->
+      (match observation tok with
+       | Some (t, v) when obs s t v -> go s (i + 1) r
+       | _ -> Rejected (i, tok, "value()_observer_read_a_value_the_model_excludes"))
     | (_, Ok None) :: r -> go s (i + 1) r
     | (tok, Ok (Some e)) :: r ->
       (match step s e with
@@ -111,6 +124,22 @@ let range n = List.init n (fun i -> i)
 let trace_of hw =
   let rec go = function [] -> [] | "TRACE" :: r -> r | _ :: r -> go r in go hw
 
+(* what a racing value() must read: all other threads are parked immediately before their next shim call, so the owner
+   of the mutex (if it has just locked or re-locked) has already executed its non-atomic update of value_ *)
+let sem_obs (s : state) _t v =
+  let base = int_of_nat s.value in
+  let expect = match s.owner with
+    | Some u ->
+      let th = s.thr u in
+      (match th.pc, th.prog with
+       | Locked, CSignal :: _ -> base + 1
+       | Locked, CSignalN n :: _ -> base + int_of_nat n
+       | Locked, (CWait (d, sl) | CTry (d, sl)) :: _ ->
+         let d = int_of_nat d and sl = int_of_nat sl in if d + sl <= base then base - d else base
+       | _ -> base)
+    | None -> base in
+  v = expect
+
 let handle case_line harness_line =
   let cw = words case_line and hw = words harness_line in
   let deadlock = (match hw with "DEADLOCK" :: _ -> true | _ -> false) in
@@ -120,11 +149,11 @@ let handle case_line harness_line =
   let toks = trace_of hw in
   match cw with
   | "sem" :: initial :: _strategy :: spur :: _seed :: rest ->
-    let progs = List.map (List.map parse_call) (blocks rest) in
+    let progs = List.map (fun b -> List.map parse_call (List.filter (fun c -> c <> "V") b)) (blocks rest) in
     let n = List.length progs in
     let spur = spur <> "0" in
     let s0 = init (n_of initial) progs in
-    let (res, evs) = fold_trace (lstep false spur) s0 toks in
+    let (res, evs) = fold_trace ~obs:sem_obs (lstep false spur) s0 toks in
     (match res with
      | Rejected (i, tok, w) -> Printf.sprintf "REJECT at=%d token=%s why=%s check=%d" i tok w (b2i (sem_check0 (n_of initial) progs evs))
      | Accepted (s, k) ->
